@@ -358,6 +358,46 @@ def part_refcats(ck, rng):
         if t < 3:
             ck.sample({'object': 'RefCatalog', 'crval': list(crval), 'sources': n, 'footprint_tol': tol,
                        'predicate_holds': ok})
+    # --- growth histories: a catalog that starts with 1..5 sources and is extended by expand_catalog (as align_wcs
+    #     does with expand_refcat=True) has, after every step, the footprint of the sources it then holds
+    from astropy.table import Table
+    for t in range(ck.n(40, 500)):
+        crval = SKY[(t * 5 + 1) % len(SKY)]
+        tol = [1.0, 10.0, 0.5, 30.0][t % 4]
+        w = mkwcs(crval, rng.random() * 360.0)
+        n0 = [1, 2, 1, 3, 2, 5][t % 6]
+        steps = [[1], [3], [1, 4], [2, 2, 6], [8], [1, 1, 1]][(t // 6) % 6]
+        ntot = n0 + sum(steps)
+        x, y = rand_xy(rng, ntot)
+        if t % 5 == 0:
+            # the first sources end up on the rim of the final hull
+            x[0], y[0] = 2.0, 2.0
+            if n0 > 1:
+                x[1], y[1] = 1021.0, 3.0
+        ra, dec = w.all_pix2world(np.array(x), np.array(y), 0)
+        ck.count('catalog_kind', 'refcat-growth')
+        ck.count('refcat_growth_start', n0)
+        hist = ['RefCatalog(first %d sources)' % n0]
+        try:
+            rc = make_refcat(ra[:n0], dec[:n0], tol)
+            k = n0
+            ok = True
+            for st in steps:
+                rc.expand_catalog(Table([list(ra[k:k + st]), list(dec[k:k + st])], names=('RA', 'DEC')))
+                k += st
+                hist.append('expand_catalog(next %d sources)' % st)
+                v = s2c(ra[:k], dec[:k])
+                rp = {'object': 'RefCatalog', 'RA': list(map(float, ra[:k])), 'DEC': list(map(float, dec[:k])),
+                      'footprint_tol': tol, 'tightness': k >= 3, 'history': list(hist),
+                      'how': 'RefCatalog on the first sources, then expand_catalog with the following ones'}
+                ok = check_containment(ck, 'refcat-after-growth', rc.polygon, [v], rp) and ok
+                if k <= 2:
+                    ok = check_box(ck, rc, v, tol, rp) and ok
+        except Exception as e:       # noqa: BLE001
+            ck.violation({'kind': 'RefCatalog-growth-failed', 'RA': list(map(float, ra)), 'DEC': list(map(float, dec)),
+                          'footprint_tol': tol, 'history': hist, 'exception': repr(e)})
+            continue
+        ck.case(('refcat-growth', list(map(float, ra)), list(map(float, dec)), tol, n0, tuple(steps)), True)
     return pool
 
 
